@@ -12,7 +12,7 @@ pub fn more() -> Vec<PropDef> {
         },
         PropDef {
             id: "C01",
-            rule: "four producers: (a) Registry histories (register_type / register_types / map_into_portable, 0..24 ops) over the run-time programmable type family (16 nodes x 64 wrapper shapes, generated cyclic graph specs), invariant checked on Registry::types() after every op; (b) PortableRegistryBuilder histories under the documented reference discipline; (c) retain(mask) on the results and on generated well-formed registries; (d) decode(encode) / from_json(to_json) of each; oracle = id == index, resolve positional and total, every reference < n; non-trivial = at least 2 entries and at least one reference, distinct by (producer, encoding, ops)",
+            rule: "four producers: (a) Registry histories (register_type / register_types / map_into_portable, 0..24 ops) over the run-time programmable type family (16 nodes x 72 wrapper shapes, generated cyclic graph specs), invariant checked on Registry::types() after every op; (b) PortableRegistryBuilder histories under the documented reference discipline; (c) retain(mask) on the results and on generated well-formed registries; (d) decode(encode) / from_json(to_json) of each; oracle = id == index, resolve positional and total, every reference < n; non-trivial = at least 2 entries and at least one reference, distinct by (producer, encoding, ops)",
             assumptions: &["builder histories reference only ids already handed out or the announced next_type_id (the documented self-reference idiom)", "Rust types cannot be created at run time: type graphs come from a family of 16 const-generic node types whose type_info() is programmed per case"],
             subs: || {
                 let mut v = crate::p_hist::c01_subs();
@@ -30,21 +30,21 @@ pub fn more() -> Vec<PropDef> {
         },
         PropDef {
             id: "C05",
-            rule: "histories with deliberate repetition and aliases (Box/Rc/Arc/&/&mut/user alias of earlier roots); oracle = identity<->id bijection against the harness's identity function, unchanged registry on repeats, entry count == number of reachable identities after every registration, per-node type_info call counters <= 1; non-trivial = a repeat or alias arriving after >= 2 distinct registrations, distinct by (spec, targets)",
+            rule: "histories with deliberate repetition and aliases (Box/Rc/Arc/&/&mut/user alias of earlier roots), plus long histories of 280-640 distinct targets from the whole menu (registries beyond 256 entries); oracle = identity<->id bijection against the harness's identity function, unchanged registry on repeats, entry count == number of reachable identities after every registration, per-node type_info call counters <= 1; non-trivial = a repeat or alias arriving after >= 2 distinct registrations, distinct by (spec, targets)",
             assumptions: &["identity function: Box/Rc/Arc/&/&mut/user aliases are transparent, Vec/VecDeque/slice of the same element are one type, String is str, all PhantomData are one type, generic arguments are compared exactly"],
             subs: crate::p_hist::c05_subs,
             extra: None,
         },
         PropDef {
             id: "C11",
-            rule: "histories with snapshots of Registry::types() after every op; oracle = each snapshot extends the previous one, ids handed out keep their definition, replay in a fresh Registry (same thread, other thread) is byte-identical, a generated permutation of the roots gives a registry isomorphic under the root-induced renaming; non-trivial = non-identity permutation of >= 2 roots with a shared sub-type, distinct by (spec, ops, permutation)",
+            rule: "histories (0..16 ops, and long ones of 280-640 distinct targets) with snapshots of Registry::types() after every op; oracle = each snapshot extends the previous one, ids handed out keep their definition, replay in a fresh Registry (same thread, other thread) is byte-identical, a generated permutation of the roots gives a registry isomorphic under the root-induced renaming; non-trivial = non-identity permutation of >= 2 roots with a shared sub-type, distinct by (spec, ops, permutation)",
             assumptions: &["cross-process replay is covered by the corpus fingerprint of C15, not here"],
             subs: crate::p_hist::c11_subs,
             extra: None,
         },
         PropDef {
             id: "C16",
-            rule: "triples of types from the family (64 shapes x 16 nodes x aliases) under a generated spec; oracle = ==, cmp, partial_cmp, hash, type_id consistent with the harness identity function, antisymmetry, transitivity, equal identity => equal type_info(); non-trivial = a pair of different Rust types, distinct by the triple",
+            rule: "triples of types from the family (72 shapes x 16 nodes x aliases) under a generated spec; oracle = ==, cmp, partial_cmp, hash, type_id consistent with the harness identity function, antisymmetry, transitivity, equal identity => equal type_info(); non-trivial = a pair of different Rust types, distinct by the triple",
             assumptions: &["same identity function as C05"],
             subs: crate::p_hist::c16_subs,
             extra: None,
